@@ -45,6 +45,8 @@ viol(const char *fn, const char *site, const char *detail, long x, long y)
         char sig[200];
         if (!strcmp(g_prop, "C18") && strcmp(site, "fault"))
                 return; /* C18 run: only calling-convention records (emitted by the trampoline) and faults */
+        if (!strcmp(g_prop, "C12") && strcmp(site, "fault") && strncmp(site, "null-", 5))
+                return; /* C12 run: NULL / invalid arguments of the direct API */
         if (!strcmp(g_prop, "C07") && strcmp(site, "fault") && strcmp(site, "write-outside-destination"))
                 return; /* C07 run: faults on the guard pages and writes outside the destination */
         snprintf(sig, sizeof sig, "%s|%s|%s|%s", g_prop, fn, site, VARIANTS[g_v].name);
@@ -942,6 +944,69 @@ t_null_args(void)
                         GUARDED(T[t].n, tcalln(T[t].n, T[t].fn, T[t].na, args));
                         if (imb_get_errno(m) == 0)
                                 viol(T[t].n, "null-element-no-error", "direct call with a NULL element in a pointer array returned without setting an error code (x = argument index)", a, 0);
+                }
+        /* zero and over-limit lengths of the functions that document a limit (ZUC 65504 bits, KASUMI 20000 bits, SNOW3G non-zero):
+         * error code, no fault, destination untouched. Buffers are large enough for the over-limit length so that a missing
+         * check shows as "no error" / "destination written" rather than as a stray fault. */
+        static uint8_t big_in[16384], big_out[16384];
+        static const void *PB[8];
+        static void *PO[8];
+        for (int i = 0; i < 8; i++) {
+                PB[i] = big_in;
+                PO[i] = big_out;
+        }
+        struct {
+                const char *n;
+                void *fn;
+                int na;
+                uint64_t a[10];
+                int lenarg, is_array;
+                uint64_t over; /* 0: only the zero length is invalid */
+        } LT[] = {
+                { "zuc-eea3-1-buffer", (void *) m->eea3_1_buffer, 5, { A(KEY[0]), A(iv), A(big_in), A(big_out), 32 }, 4, 0, 8189 },
+                { "zuc-eia3-1-buffer", (void *) m->eia3_1_buffer, 5, { A(KEY[0]), A(iv), A(big_in), 100, A(big_out) }, 3, 0, 65505 },
+                { "zuc-eea3-4-buffer", (void *) m->eea3_4_buffer, 5, { A(P4K), A(P4I), A(PB), A(PO), A(L4) }, 4, 1, 8189 },
+                { "zuc-eea3-n-buffer", (void *) m->eea3_n_buffer, 6, { A(P4K), A(P4I), A(PB), A(PO), A(L4), 4 }, 4, 1, 8189 },
+                { "zuc-eia3-n-buffer", (void *) m->eia3_n_buffer, 6, { A(P4K), A(P4I), A(PB), A(L4), A(PO), 4 }, 3, 1, 65505 },
+                { "snow3g-f8-1-buffer", (void *) m->snow3g_f8_1_buffer, 5, { A(&sk), A(iv), A(big_in), A(big_out), 32 }, 4, 0, 0 },
+                { "snow3g-f8-1-buffer-bit", (void *) m->snow3g_f8_1_buffer_bit, 6, { A(&sk), A(iv), A(big_in), A(big_out), 100, 3 }, 4, 0, 0 },
+                { "snow3g-f8-n-buffer", (void *) m->snow3g_f8_n_buffer, 6, { A(&sk), A(P4I), A(PB), A(PO), A(L4), 4 }, 4, 1, 0 },
+                { "snow3g-f9-1-buffer", (void *) m->snow3g_f9_1_buffer, 5, { A(&sk), A(iv), A(big_in), 100, A(big_out) }, 3, 0, 0 },
+                { "kasumi-f8-1-buffer", (void *) m->f8_1_buffer, 5, { A(&kk), ivv, A(big_in), A(big_out), 32 }, 4, 0, 2501 },
+                { "kasumi-f8-1-buffer-bit", (void *) m->f8_1_buffer_bit, 6, { A(&kk), ivv, A(big_in), A(big_out), 100, 0 }, 4, 0, 20001 },
+                { "kasumi-f8-2-buffer", (void *) m->f8_2_buffer, 9, { A(&kk), ivv, ivv, A(big_in), A(big_out), 32, A(big_in), A(big_out + 8192), 32 }, 5, 0, 2501 },
+                { "kasumi-f8-n-buffer", (void *) m->f8_n_buffer, 6, { A(&kk), A(IV4), A(PB), A(PO), A(L4), 4 }, 4, 1, 2501 },
+                { "kasumi-f9-1-buffer", (void *) m->f9_1_buffer, 4, { A(&kk), A(big_in), 32, A(big_out) }, 2, 0, 2501 },
+                { "kasumi-f9-1-buffer-user", (void *) m->f9_1_buffer_user, 6, { A(&kk), ivv, A(big_in), 100, A(big_out), 1 }, 3, 0, 20001 },
+        };
+        for (unsigned t = 0; t < sizeof LT / sizeof LT[0]; t++)
+                for (int w = 0; w < 2; w++) {
+                        uint64_t bad = w ? LT[t].over : 0;
+                        if (w && !LT[t].over)
+                                continue;
+                        uint64_t args[10];
+                        uint32_t lcopy[8];
+                        memcpy(args, LT[t].a, sizeof args);
+                        if (LT[t].is_array) {
+                                for (int i = 0; i < 8; i++)
+                                        lcopy[i] = 32;
+                                lcopy[1] = (uint32_t) bad;
+                                args[LT[t].lenarg] = A(lcopy);
+                        } else
+                                args[LT[t].lenarg] = bad;
+                        memset(big_out, 0x6B, sizeof big_out);
+                        imb_set_session(m, NULL);
+                        IMB_JOB *j = IMB_GET_NEXT_JOB(m);
+                        (void) j;
+                        n_eval++;
+                        GUARDED(LT[t].n, tcalln(LT[t].n, LT[t].fn, LT[t].na, args));
+                        if (imb_get_errno(m) == 0)
+                                viol(LT[t].n, "null-len-no-error", "direct call with a zero / over-limit length returned without setting an error code (x = 0 zero, 1 over the limit)", w, 0);
+                        for (size_t i = 0; i < sizeof big_out; i++)
+                                if (big_out[i] != 0x6B) {
+                                        viol(LT[t].n, "null-len-output-written", "direct call with a zero / over-limit length wrote to its output (x = 0 zero, 1 over the limit)", w, (long) i);
+                                        break;
+                                }
                 }
 }
 
